@@ -1,0 +1,15 @@
+//go:build verif
+
+package schedulerplugin
+
+import "tkestack.io/galaxy/pkg/ipam/floatingip"
+
+// VerifNetsEnsureIPAMConf exports ensureIPAMConf (work package "nets", property C20).
+func (p *FloatingIPPlugin) VerifNetsEnsureIPAMConf(lastConf *string, newConf string) (bool, error) {
+	return p.ensureIPAMConf(lastConf, newConf)
+}
+
+// VerifNetsIPAM returns the plugin's IPAM.
+func (p *FloatingIPPlugin) VerifNetsIPAM() floatingip.IPAM {
+	return p.ipam
+}
